@@ -362,9 +362,13 @@ def rule_downcasts(rep, rid, idx, prefix, table):
                 rep.add(rid, key, False, where + ' ' + f.qname, 'dynamic_cast<%s> is dereferenced under a token test that does not imply the type: %s' % (tgt, why))
             elif (f.qname, tgt) in table:
                 rep.add(rid, key, True, where + ' ' + f.qname, '%s (%s)' % (use, table[(f.qname, tgt)]), nontrivial=False)
-            elif use == 'deref-unguarded':
+            elif use == 'deref-unguarded' and f.name in ('visitPre', 'visitPost', 'main') or (use == 'deref-unguarded' and not f.params):
                 rep.add(rid, key, False, where + ' ' + f.qname,
                         'dynamic_cast<%s> is dereferenced without a null test, a token test or a recorded guard: an object of another class makes it null' % tgt)
+            elif use == 'deref-unguarded':
+                # inside a helper the guard may be the caller's (the object arrives as a parameter): not decided here
+                rep.undecided(rid, key, 'dynamic_cast<%s> is dereferenced without a guard in this function; whether its callers establish the type is not '
+                              'decided' % tgt, where + ' ' + f.qname)
             else:
                 rep.undecided(rid, key, 'dereferenced under a guard this rule cannot verify (%s; %s)' % (use, why), where + ' ' + f.qname)
 
